@@ -277,6 +277,12 @@ namespace sqf::parser::config::bison
     inline parser::symbol_type yylex(::sqf::parser::config::tokenizer& tokenizer)
     {
          auto token = tokenizer.next();
+         // tokens the grammar never sees are skipped in a loop: one stack frame, however many follow each other
+         while (token.type == tokenizer::etoken::m_line || token.type == tokenizer::etoken::i_comment_line
+             || token.type == tokenizer::etoken::i_comment_block || token.type == tokenizer::etoken::i_whitespace)
+         {
+             token = tokenizer.next();
+         }
          parser::location_type loc;
          loc.begin.line = token.line;
          loc.begin.column = token.column;
@@ -288,10 +294,6 @@ namespace sqf::parser::config::bison
          {
          case tokenizer::etoken::eof: return parser::make_END_OF_FILE(loc);
          case tokenizer::etoken::invalid: return parser::make_INVALID(loc);
-         case tokenizer::etoken::m_line: return yylex(tokenizer);
-         case tokenizer::etoken::i_comment_line: return yylex(tokenizer);
-         case tokenizer::etoken::i_comment_block: return yylex(tokenizer);
-         case tokenizer::etoken::i_whitespace: return yylex(tokenizer);
          
          case tokenizer::etoken::t_class: return parser::make_CLASS(token, loc);
          case tokenizer::etoken::t_delete: return parser::make_DELETE(token, loc);
